@@ -103,6 +103,28 @@ def D6(m, R):
 
     def scan_of(loop, over=None, among=None):
         """`for c in IT: if c in CH: cnt (+|-)= 1 else: break`  (or `if c not in CH: break` then the step): (IT, CH, counter, step) or None"""
+        if isinstance(loop, ast.For) and isinstance(loop.target, ast.Tuple) and len(loop.target.elts) == 2 and all(isinstance(x, ast.Name) for x in loop.target.elts) \
+                and call_name(loop.iter) == 'enumerate' and len(loop.iter.args) == 1 and not loop.orelse:
+            # `cnt = len(T)` ... `for i, c in enumerate(IT): if c not in CH: cnt = i; break`: the index of the first character to keep, the length of the
+            # text when there is none -- the number of leading members of CH, counted upwards
+            i_, c_ = (x.id for x in loop.target.elts)
+            b_ = loop.body
+            if len(b_) == 1 and isinstance(b_[0], ast.If) and not b_[0].orelse and isinstance(b_[0].test, ast.Compare) and len(b_[0].test.ops) == 1 and \
+                    isinstance(b_[0].test.ops[0], ast.NotIn) and norm(b_[0].test.left) == c_ and len(b_[0].body) == 2 and isinstance(b_[0].body[1], ast.Break) and \
+                    isinstance(b_[0].body[0], ast.Assign) and isinstance(b_[0].body[0].targets[0], ast.Name) and norm(b_[0].body[0].value) == i_:
+                cnt_ = b_[0].body[0].targets[0].id
+                it_ = norm(loop.iter.args[0])
+                base_ = it_[len('reversed('):-1] if it_.startswith('reversed(') else it_[:-len('[::-1]')] if it_.endswith('[::-1]') else it_
+                # the default is set by the statement right before the loop
+                par_ = getattr(loop, '_parent', None)
+                prev_ = None
+                for fld_ in ('body', 'orelse'):
+                    L_ = getattr(par_, fld_, None)
+                    if isinstance(L_, list) and loop in L_ and L_.index(loop) > 0:
+                        prev_ = L_[L_.index(loop) - 1]
+                if isinstance(prev_, ast.Assign) and is_name(prev_.targets[0], cnt_) and norm(prev_.value) == 'len(%s)' % base_:
+                    return (it_, norm(b_[0].test.comparators[0]), cnt_, 1, loop)
+            return None
         if not (isinstance(loop, ast.For) and isinstance(loop.target, ast.Name)):
             return None
         c = loop.target.id
